@@ -477,7 +477,7 @@ def pcmp0(p, op):
     q = _scale_to_int(p)
     if q is not None:
         pb = _pb_form(q)
-        if pb is not None:
+        if pb is not None and all(abs(c) < (1 << 30) for _, c in pb[0]) and abs(pb[1]) < (1 << 30):
             args, c0 = pb
             if op == "<=":
                 return z3.PbLe(args, -c0)
@@ -778,6 +778,15 @@ def _cmp(a, b, op):
     if op in ("==", "!=") and is_bitlike(a) and is_bitlike(b):
         x = bxor(a, b)
         return bnot(x) if op == "==" else x
+    if isinstance(a, (Aff, BX)) and is_conc(b) or isinstance(b, (Aff, BX)) and is_conc(a):
+        # a 0/1 value against a constant: decide both cases, answer is const, the bit or its negation
+        bit = a if isinstance(a, (Aff, BX)) else b
+        f = {"<": lambda x, y: x < y, "<=": lambda x, y: x <= y, "==": lambda x, y: x == y, "!=": lambda x, y: x != y}[op]
+        r0 = f(0, b) if bit is a else f(a, 0)
+        r1 = f(1, b) if bit is a else f(a, 1)
+        if r0 == r1:
+            return bool(r0)
+        return bit if r1 else bnot(bit)
     if isinstance(a, SqrtV) or isinstance(b, SqrtV):
         # monotone: compare radicands when both sides are non-negative roots / non-negative constants
         def rad(x):
